@@ -8,7 +8,6 @@
 import Manticore.Model.C10
 import Manticore.Lemmas.DNS
 import Manticore.Lemmas.C10
-import Manticore.Props.C10.Consts
 namespace Manticore.C10
 open Manticore Manticore.Spec.DNS
 
